@@ -128,6 +128,17 @@ func LifecycleScenario(t *rapid.T) sim.CScenario {
 			k++
 			kind := pick(t, "kind", []string{"call", "call", "callresult", "notify", "batch"})
 			st = sim.CStep{Op: kind, K: k, Ctx: pick(t, "ctx", []string{"cancel", "cancel", "deadline"}), D: pick(t, "dl", []int{1000, 3000})}
+			if rapid.IntRange(0, 11).Draw(t, "badparams") == 0 {
+				// refused before anything is sent: no entry to answer
+				st.BadParams = pick(t, "bpkind", []string{"chan", "scalar"})
+				if kind == "batch" {
+					for i, ns := 0, rapid.IntRange(1, 3).Draw(t, "nspecs"); i < ns; i++ {
+						st.Specs = append(st.Specs, rapid.IntRange(0, 3).Draw(t, "spnote") == 0)
+					}
+				}
+				cancellable = append(cancellable, k)
+				break
+			}
 			if kind == "batch" {
 				ns := rapid.IntRange(1, 3).Draw(t, "nspecs")
 				for i := 0; i < ns; i++ {
